@@ -434,6 +434,20 @@ MUTANTS = [
      "    info = DefaultTransitionInfo(error_code, acceptance_prob, do_accept)\n", "    info = DefaultTransitionInfo(error_code, acceptance_prob, acceptance_prob > 0)\n"),
     ("C05-nan-guard-checks-only-proposal", "liesel/goose/mh.py",
      "        jnp.isnan(log_acc_prob),\n", "        jnp.isnan(proposed_log_prob),\n"),
+    # ------------------------------------------------------------------ C12
+    ("C12-history-of-all-tracked-keys", "liesel/goose/nuts.py",
+     "            history = Position({k: history[k] for k in self.position_keys})\n", "            history = Position(dict(history))\n"),
+    ("C12-population-variance", "liesel/goose/mm.py",
+     "    var = jnp.var(matrix, axis=0, ddof=1)\n", "    var = jnp.var(matrix, axis=0, ddof=0)\n"),
+    ("C12-diag-regulariser-dropped", "liesel/goose/mm.py",
+     "    var = var + 0.001\n", ""),
+    ("C12-dense-rowvar", "liesel/goose/mm.py",
+     "    cov = jnp.cov(matrix, rowvar=False)\n", "    cov = jnp.cov(matrix.T[::-1].T, rowvar=False)\n"),
+    ("C12-hmc-history-in-listed-order", "liesel/goose/hmc.py",
+     "                new_inv_mm = tune_inv_mm_diag(history)\n",
+     "                new_inv_mm = jnp.concatenate([jnp.atleast_1d(tune_inv_mm_diag({k: v})) for k, v in history.items()])\n"),
+    ("C12-tune-after-every-adaptation-epoch", "liesel/goose/kernel.py",
+     "        is_slow = epoch.config.type == EpochType.SLOW_ADAPTATION\n", "        is_slow = epoch.config.type >= EpochType.FAST_ADAPTATION\n"),
 ]
 
 # Semantics-preserving changes: the property still holds, so the check must NOT raise an alarm.
